@@ -400,6 +400,49 @@ fn exec(live: &mut Live, op: &Value, dict: &Dict, ev: &mut Map<String, Value>, v
             let mut bytes = live.snap.bytes();
             let u32at = |b: &[u8], o: usize| u32::from_le_bytes([b[o], b[o + 1], b[o + 2], b[o + 3]]);
             let slen = 1usize << u32at(&bytes, 28).wrapping_shr(16).min(12);
+            if op["kind"].as_str() == Some("fat_rotate") {
+                // the FAT sector listed FIRST in the DIFAT and the one listed LAST trade places: afterwards the last-listed
+                // FAT sector lives in sector 0 and the DIFAT ends with a genuine entry 0 (equally legal: FAT sectors may
+                // be anywhere, the DIFAT lists them in coverage order).  Both cells stay marked FATSECT.
+                let per = slen / 4;
+                let mut locs: Vec<usize> = (0..109).map(|i| 76 + 4 * i).collect();
+                let mut d = u32at(&bytes, 68) as usize;
+                let mut guard = 0;
+                while d < 0xFFFF_FFF0usize && (d + 2) * slen <= bytes.len() && guard < 4096 {
+                    let o = (d + 1) * slen;
+                    locs.extend((0..per - 1).map(|i| o + 4 * i));
+                    d = u32at(&bytes, o + slen - 4) as usize;
+                    guard += 1;
+                }
+                let used: Vec<usize> = locs.into_iter().take_while(|&o| u32at(&bytes, o) < 0xFFFF_FFF0).collect();
+                if used.len() < 2 {
+                    return json!({"k": "err", "e": "OneFatSector"});
+                }
+                let (lo, hi) = (used[0], used[used.len() - 1]);
+                let (f0, fl) = (u32at(&bytes, lo) as usize, u32at(&bytes, hi) as usize);
+                if (f0 + 2) * slen > bytes.len() || (fl + 2) * slen > bytes.len() {
+                    return json!({"k": "err", "e": "BadFatSector"});
+                }
+                let (o0, ol) = ((f0 + 1) * slen, (fl + 1) * slen);
+                let s0 = bytes[o0..o0 + slen].to_vec();
+                let sl = bytes[ol..ol + slen].to_vec();
+                bytes[o0..o0 + slen].copy_from_slice(&sl);
+                bytes[ol..ol + slen].copy_from_slice(&s0);
+                bytes[lo..lo + 4].copy_from_slice(&(fl as u32).to_le_bytes());
+                bytes[hi..hi + 4].copy_from_slice(&(f0 as u32).to_le_bytes());
+                let strict = op["mode"].as_str() == Some("strict");
+                live.cf = None;
+                let b = SharedBuf::new(bytes);
+                b.ctl.lock().unwrap().chunks = live.chunks.clone();
+                live.snap = Snap::Mem(b.clone());
+                return match open_with(Any::Mem(b), strict, live.maxbuf) {
+                    Ok(cf) => {
+                        live.cf = Some(cf);
+                        ok(json!("unit"))
+                    }
+                    Err(e) => res_err(e),
+                };
+            }
             let d1 = u32at(&bytes, 68) as usize;
             if d1 >= 0xFFFF_FFF0usize || (d1 + 2) * slen > bytes.len() {
                 return json!({"k": "err", "e": "NoDifatSector"});
